@@ -1,7 +1,8 @@
 (* GENERATED on every run by harness/translate/c19.py from
    src/lenskit/basic/random.py and src/lenskit/stochastic/_ranker.py -- do not edit. *)
-From Coq Require Import ZArith Bool.
+From Coq Require Import ZArith Bool List.
 From LK Require Import Lib.PyInt.
+Import ListNotations.
 Open Scope Z_scope.
 
 Definition random_len (n : pyv) (config_n : pyv) (len_items : Z) : res outcome :=
@@ -60,3 +61,5 @@ Definition stochastic_len (n : pyv) (config_n : pyv) (len_valid_items : Z) : res
   else (ret (Take n true)))))))).
 Definition stochastic_mask : mask_kind := MFinite.
 Definition stochastic_keys : key_rule := KLogUOverW.   (* log(U) / max(weight, tiny), largest first *)
+Definition stochastic_scale : scale_rule := ScaleBeforeTransform.   (* weights = transform(scale * score) *)
+Definition stochastic_transforms : list transform_rule := [TrLinearMinMax; TrSoftmax; TrRawClamp].
